@@ -289,6 +289,14 @@ def run(tier, seed):
             continue
         texts.append((name, s))
         texts.append((name + "+wide", widen(rnd, s, r["tokens"])))
+        # what the formatter removes without touching anything nearby: repeated blank lines between items, blank
+        # lines at the end, trailing blanks on a line (the edits must still produce what `garden format` prints)
+        lines = s.split("\n")
+        gaps = [i for i, l in enumerate(lines[:-1]) if l == "" and i > 0]
+        if gaps and rnd.random() < 0.7:
+            for i in sorted(rnd.sample(gaps, min(len(gaps), 2)), reverse=True):
+                lines[i:i] = [""] * rnd.randint(1, 2)
+            texts.append((name + "+blank", "\n".join(lines) + rnd.choice(["", "\n", "\n\n"])))
     texts += [(f"lint-bait-{i}", s) for i, s in enumerate(c23.LINT_BAIT)]      # quick fixes over several lines
     toks = batch("frontend", [{"id": i, "src": s, "tokens": True, "check": False, "format": False} for i, (_, s) in enumerate(texts)], timeout_per=2.0)
     jobs = [(name, s, r.get("tokens") or [], seed * 1000 + i, 3 if tier == "quick" else 8) for i, ((name, s), r) in enumerate(zip(texts, toks))]
